@@ -24,6 +24,10 @@ CHECKS = {
         text="Bounded symbolic proof over the real CorrFunc.sample / landy_szalay / davis_peebles / RedshiftData.from_corrdata / normalised(): for every non-empty subset of {dr,rd,rr} x {auto,cross} and every real-valued content, value and each jackknife sample equal the documented formula built from explicit totals (auto normalisation = half the squared total weight); n(z)^2 dz^2 w_ss w_pp = w_sp^2 with the sign of w_sp; integral after normalisation = 1.",
         note=_REAL + " Denominators non-zero / radicands positive (side conditions); sqrt is an axiomatised uninterpreted function; normalised(target=...) and NaN handling outside the claim; RR-without-DR is not covered by the documented formula (error accepted).",
         technique="symbolic execution of real numpy code on object arrays of z3 reals + SMT (z3 nlsat) discharge per path"),
+    "C14": dict(level="other", ref="DESIGN.md 4/C14",
+        text="REAL-ARITHMETIC part of the property only: bounded symbolic proof over the real to_3d/from_3d/distance/mean/AngularDistances conversions with cos/sin/arccos/arcsin/sqrt as axiomatised uninterpreted functions: unit norm, coordinate round trip with RA in [0,2pi) incl. poles and RA=0, chord<->angle mutually inverse and strictly increasing on [0,pi]/[0,2], chord <= 2 for all unit vectors (no exception), distance symmetric, zero iff equal, chord^2 = 2-2p.q, mean = from_3d of the (weighted) vector average with RA in range.  The explicit floating-point error bounds and tiny/near-antipodal accuracy demanded by the statement are NOT decided (float + transcendentals cannot be encoded); a change that is exact over the reals but loses float precision is reported as inconclusive at best.",
+        note=_REAL + " Trigonometric axioms (Pythagoras, signs, zeros, principal inverses, monotonicity, evenness, periodicity, special values) are trusted; % modelled on the window (-m,2m); distance/mean harnesses take the Euclidean unit vectors as inputs.",
+        technique="symbolic execution of real numpy code with z3 reals and axiomatised uninterpreted trigonometric functions (nlsat + UF abstraction)"),
     "C15": dict(level="other", ref="DESIGN.md 4/C15",
         text="Bounded symbolic proof over the real configuration classes: for symbolic zmin/zmax/scale limits/exponent/custom edges and every engine-enumerated combination of method, closed side, unit, cosmology (default by name / non-default object) and modified parameter set: requested number of strictly increasing bins spanning exactly [zmin,zmax] with uniform spacing in the method's variable; angle = r*factor/D(z) for all 8 units; invalid parameters raise; modify == create(merged) attribute-wise and under ==, original untouched; equal parameters compare equal; dict round trip; a user CustomCosmology is accepted.",
         note=_REAL + " astropy (units, z_at_value, named cosmologies) replaced by uninterpreted D_C (strictly increasing, D_C(0)=0), D_A=D_C/(1+z), inverse z_at_value, ln/exp; float identity of regenerated edges is outside the claim; replays use real astropy cosmologies.",
@@ -38,4 +42,4 @@ CHECKS = {
         technique="symbolic execution of real numpy code on object arrays of z3 reals (forking comparisons) + SMT discharge per path"),
 }
 NOT_APPLICABLE = [dict(property_id=p, reason="check not built yet in this session (work in progress; see DESIGN.md section 8 build order)") for p in
-    ["C02","C05","C06","C07","C08","C09","C11","C12","C13","C14","C16","C18"]]
+    ["C02","C05","C06","C07","C08","C09","C11","C12","C13","C16","C18"]]
